@@ -3,11 +3,11 @@
 pub trait Actor: Sized {
     spec fn gid(&self) -> int;
     fn started(&mut self, ctx: &mut Context<Self>, Tracked(w): Tracked<&mut World>) -> (r: DynResult<()>)
-        requires started_phase_ok(old(w).lc, old(self).gid()),                                                                // @ob lc.started-allowed C03,C07
+        requires started_phase_ok(old(w).lc, old(self).gid()),                                                                // @ob lc.started-allowed C03,C07,C17,C01
                  started_timers_ok(old(w).lc),                                                                                // @ob lc.no-timer-of-the-old-incarnation-at-restart C07,C10
         ensures emits(old(w), final(w), Ev::CbStarted { gid: old(self).gid(), ok: r is Ok }), final(self).gid() == old(self).gid(), ctx_stable(old(ctx), final(ctx));
     fn stopped(&mut self, ctx: &mut Context<Self>, Tracked(w): Tracked<&mut World>)
-        requires allowed(old(w).lc, Ev::CbStopped { gid: old(self).gid() }),                                                  // @ob lc.stopped-allowed C03,C04,C13,C06,C14,C17,C16
+        requires allowed(old(w).lc, Ev::CbStopped { gid: old(self).gid() }),                                                  // @ob lc.stopped-allowed C03,C04,C13,C06,C14,C17,C16,C01,C07
         ensures emits(old(w), final(w), Ev::CbStopped { gid: old(self).gid() }), final(self).gid() == old(self).gid(), ctx_stable(old(ctx), final(ctx));
 }
 pub uninterp spec fn item_id<T>(t: &T) -> int;
@@ -22,7 +22,7 @@ pub trait StreamHandler<M>: Actor {
 // `A::default()` (C07, recreate-from-default): a new value; the automaton only lets it replace the current one between stopped and started
 #[verifier::external_body]
 pub fn fresh_default<A: Actor>(Tracked(w): Tracked<&mut World>) -> (r: A)
-    requires allowed(old(w).lc, Ev::Recreated { gid: 0 }),                                                                    // @ob lc.recreate-allowed C07
+    requires allowed(old(w).lc, Ev::Recreated { gid: 0 }),                                                                    // @ob lc.recreate-allowed C07,C17,C01
     ensures emits(old(w), final(w), Ev::Recreated { gid: r.gid() }),
 { unimplemented!() }
 
